@@ -11,11 +11,19 @@ PROP = {
         "Sonic.Props.C02.readOp_spec",
         "Sonic.Props.C02.writeOp_spec",
     ],
-    "runs": LOOP_RUNS,
-    "keys": ["read-*", "readall-*", "write-*", "writeall-*", "peer-received-*"],
+    "runs": LOOP_RUNS + [{
+        # byte_buffer.go is one of the property's anchors: ByteBuffer.WriteTo / ReadFrom are how CodecConn and the websocket
+        # stream move bytes between a buffer and the transport (partial writes and errors after partial progress included)
+        "component": "bytebuffer",
+        "quick": {"gen": [(1500, 30)]},
+        "thorough": {"gen": [(15000, 40)]},
+    }],
+    "keys": ["read-*", "readall-*", "write-*", "writeall-*", "peer-received-*", "bytebuffer.writeto", "bytebuffer.readfrom",
+             "bytebuffer.asyncwriteto", "bytebuffer.asyncreadfrom"],
     "secondary_keys": ["read-count-*", "read-success-*", "readall-*", "write-count-*", "write-success-*", "writeall-*", "peer-received-*"],
     "rule": LOOP_RULE + "; payloads are position-dependent (byte i of the stream to object k is (7i+13k+1) mod 251, byte j of write op id "
-                        "is (11j+17id+3) mod 251) so a lost, duplicated, reordered or invented byte is visible at the first wrong offset",
+                        "is (11j+17id+3) mod 251) so a lost, duplicated, reordered or invented byte is visible at the first wrong offset; plus the "
+                        "`bytebuffer` component of C09 for ByteBuffer.WriteTo/ReadFrom (scripted writers that accept n bytes and/or fail)",
     "trusted_base": LOOP_TB + ["Sonic/Model/Xfer.lean: hand-written model of the transfer loops (asyncReadNow/asyncWriteNow + continuation) "
                                "as a function of per-syscall kernel results; tied to the code through the data clauses of the trace monitor "
                                "(exact bytes and counts of every completion on real TCP connections, FIFOs and adapted net.Conns)"],
